@@ -226,3 +226,167 @@ Proof.
 Qed.
 
 End Reach.
+
+(* ---------- the phases of an AGV (agv_phase_b): also unconditional ---------- *)
+Definition phase_ok (p : tstate * list nat * tloc * option nat) : Prop :=
+  let '(st, l, loc, jb) := p in
+  match st with
+  | TPickup | TWaiting => l = [] /\ jb <> None /\ (exists a b c, loc = LRoute a b c)
+  | TTransit => length l = 1 /\ (exists a b c, loc = LRoute a b c)
+  | TOutage => l = [] /\ jb = None /\ (exists q, loc = LAt q)
+  | TIdle => l = [] /\ (exists q, loc = LAt q)
+  | TWorking => False
+  end.
+
+Definition PH (x : state) : Prop := forall t p, tview x t = Some p -> phase_ok p.
+
+Lemma PH_frame x x' : PH x -> (forall t, tview x' t = tview x t) -> PH x'.
+Proof. intros A H t p Hp. rewrite H in Hp. eauto. Qed.
+
+Section ApplyPH.
+Variable sigma : oracle.
+Variable i : inst.
+
+Lemma PH_ctl x t ts st oc loc jb outs :
+  PH x -> nth_error (s_trans x) t = Some ts -> phase_ok (st, b_store (t_buf ts), loc, jb) ->
+  PH (set_trans_ctl x t st oc loc jb outs).
+Proof.
+  intros A Hts Hp t' p Hq. rewrite tview_set_trans_ctl in Hq. destruct (Nat.eqb_spec t' t) as [->|Hne]; [|eauto].
+  rewrite (tview_of _ _ _ Hts) in Hq. simpl in Hq. inversion Hq; subst p. exact Hp.
+Qed.
+
+Theorem apply_preserves_PH x tr x' : PH x -> apply_transition sigma i x tr = Ok x' -> PH x'.
+Proof.
+  intros A H.
+  destruct (tr_comp tr) as [m|t|n] eqn:Hc.
+  - destruct (nth_error (s_machs x) m) as [ms|] eqn:Hms; [|unfold apply_transition in H; rewrite Hc, Hms in H; discriminate].
+    destruct (apply_machine sigma i _ _ _ _ _ Hc Hms H) as [[_ [_ C]]|[[_ [_ C]]|[[_ [_ C]]|[_ [_ C]]]]].
+    + unfold h_m_idle_setup in C. inv_all C. inversion C; subst; clear C.
+      assert (Hne : BPre m <> BIn m) by congruence.
+      match goal with E' : move_job _ _ _ _ _ = Ok ?y |- _ => pose proof (move_job_moved i _ _ _ _ _ Hne E') as M end.
+      eapply PH_frame; [exact A|]. intros t. rewrite tview_with_sto, tview_set_mach_ctl.
+      rewrite (tview_moved_other i _ _ _ _ _ t M) by congruence. apply tview_put_job.
+    + unfold h_m_setup_working in C. inv_all C. inversion C; subst; clear C.
+      eapply PH_frame; [exact A|]. intros t. rewrite tview_with_sto, tview_set_mach_ctl. apply tview_put_job.
+    + unfold h_m_working_outage in C. inv_all C. inversion C; subst; clear C.
+      eapply PH_frame; [exact A|]. intros t. rewrite tview_with_sto, tview_set_mach_ctl. apply tview_put_job.
+    + unfold h_m_outage_idle in C. inv_all C. inversion C; subst; clear C.
+      assert (Hne : BIn m <> BPost m) by congruence.
+      match goal with E' : move_job _ _ _ _ _ = Ok ?y |- _ => pose proof (move_job_moved i _ _ _ _ _ Hne E') as M end.
+      eapply PH_frame; [exact A|]. intros t. rewrite tview_set_mach_ctl.
+      rewrite (tview_moved_other i _ _ _ _ _ t M) by congruence. apply tview_put_job.
+  - destruct (nth_error (s_trans x) t) as [ts|] eqn:Hts; [|unfold apply_transition in H; rewrite Hc, Hts in H; discriminate].
+    pose proof (A _ _ (tview_of _ _ _ Hts)) as Q. simpl in Q.
+    destruct (apply_transport sigma i _ _ _ _ _ Hc Hts H) as [[S [_ C]]|[[S [_ C]]|[[S [_ C]]|[[S [_ C]]|[[S [_ C]]|[S [_ C]]]]]]].
+    + unfold h_t_idle_working in C. inv_all C. inversion C; subst. rewrite S in Q. destruct Q as [Q1 _].
+      eapply PH_ctl; [exact A|exact Hts|]. simpl. rewrite Q1. split; auto. split; [discriminate|eauto].
+    + unfold h_t_pickup_waiting in C. inv_all C. inversion C; subst. rewrite S in Q.
+      eapply PH_ctl; [exact A|exact Hts|]. simpl. exact Q.
+    + unfold h_t_to_transit in C. inv1 C. inv1 C. inv1 C. inv1 C. inv1 C. inv1 C.
+      * unfold h_t_waiting_waiting in C. inv_all C. inversion C; subst.
+        eapply PH_ctl; [exact A|exact Hts|]. simpl. destruct S as [S|S]; rewrite S in Q; exact Q.
+      * inv_all C. inversion C; subst; clear C.
+        match goal with E' : move_job _ _ _ ?A0 (BAgv t) = Ok ?y |- _ =>
+          assert (Hne : A0 <> BAgv t) by (intros Eq; rewrite Eq in *; discriminate);
+          assert (HA : forall t0, BAgv t0 <> A0) by (intros t0 Eq; rewrite <- Eq in *; discriminate);
+          pose proof (move_job_moved i _ _ _ _ _ Hne E') as M end.
+        assert (Q' : b_store (t_buf ts) = [] /\ exists a b c, t_loc ts = LRoute a b c) by (destruct S as [S|S]; rewrite S in Q; tauto).
+        destruct Q' as [Q1 Q2].
+        intros t' p Hp. rewrite tview_with_sto, tview_set_trans_ctl in Hp.
+        destruct (Nat.eqb_spec t' t) as [->|Hn].
+        -- rewrite (tview_moved_target i _ _ _ _ _ _ _ _ _ M (tview_of _ _ _ Hts)) in Hp. simpl in Hp. inversion Hp; subst p.
+           simpl. rewrite Q1. split; auto.
+        -- rewrite (tview_moved_other i _ _ _ _ _ t' M) in Hp; [eauto|apply HA|congruence].
+    + unfold h_t_transit_outage in C. inv_all C. inversion C; subst; clear C.
+      match goal with E' : move_job _ _ _ (BAgv t) ?B = Ok ?y |- _ => rename E' into Emv; rename B into B0 end.
+      destruct (t_loc ts) as [|cur src dst] eqn:El; [discriminate|].
+      assert (HB : BAgv t <> B0 /\ forall t', BAgv t' <> B0).
+      { match goal with E' : match ?d0 with PM _ => _ | PB _ => _ | PT _ => _ end = Ok B0 |- _ =>
+          destruct d0; inv_all E'; inversion E'; subst; split; congruence end. }
+      destruct HB as [Hne HB].
+      pose proof (move_job_moved i _ _ _ _ _ Hne Emv) as M.
+      intros t' p Hp. rewrite tview_with_sto, tview_set_trans_ctl in Hp.
+      destruct (Nat.eqb_spec t' t) as [->|Hn].
+      * destruct (tview_moved_source i _ _ _ _ _ _ _ _ _ M (tview_of _ _ _ Hts)) as [Hv Hin].
+        rewrite El in Hv. rewrite Hv in Hp. simpl in Hp. inversion Hp; subst p. simpl.
+        destruct S as [S|S]; rewrite S in Q; [|destruct Q].
+        destruct Q as [Q1 _]. destruct (b_store (t_buf ts)) as [|j0 [|]]; try discriminate.
+        destruct Hin as [<-|[]]. rewrite remove_single. split; auto. split; eauto.
+      * rewrite (tview_moved_other i _ _ _ _ _ t' M) in Hp; [eauto|congruence|apply HB].
+    + unfold h_t_outage_idle in C. inversion C; subst. rewrite S in Q. destruct Q as [Q1 [_ Q3]].
+      eapply PH_ctl; [exact A|exact Hts|]. simpl. rewrite Q1. auto.
+    + unfold h_t_waiting_waiting in C. inv_all C. inversion C; subst. rewrite S in Q.
+      eapply PH_ctl; [exact A|exact Hts|]. simpl. exact Q.
+  - unfold apply_transition in H. rewrite Hc in H. destruct (nth_error (s_bufs x) n); discriminate.
+Qed.
+
+Lemma PH_set_now x t : PH x -> PH (set_now x t).
+Proof. intros A. eapply PH_frame; eauto. Qed.
+
+End ApplyPH.
+
+Lemma PH_iff_agv_phase_b x :
+  agv_phase_b x && forallb (fun t => match t_st t with TIdle => is_nil (b_store (t_buf t)) | _ => true end) (s_trans x) = true <-> PH x.
+Proof.
+  unfold agv_phase_b, PH. rewrite andb_true_iff, !forallb_forall. split.
+  - intros [H H2] t p Hp. unfold tview in Hp. destruct (nth_error (s_trans x) t) as [ts|] eqn:E; [|discriminate].
+    simpl in Hp. inversion Hp; subst p. pose proof (nth_error_In _ _ E) as Hin. specialize (H ts Hin). specialize (H2 ts Hin). simpl.
+    destruct (t_st ts); try discriminate.
+    + destruct (t_loc ts); [|discriminate]. destruct (b_store (t_buf ts)); [|discriminate]. eauto.
+    + apply andb_true_iff in H. destruct H as [H Hl]. apply andb_true_iff in H. destruct H as [Hs Hj].
+      destruct (b_store (t_buf ts)); [|discriminate]. destruct (t_loc ts); [discriminate|].
+      split; auto. split; [destruct (t_job ts); [discriminate|discriminate]|eauto].
+    + apply andb_true_iff in H. destruct H as [Hs Hl]. apply Nat.eqb_eq in Hs. destruct (t_loc ts); [discriminate|]. eauto.
+    + apply andb_true_iff in H. destruct H as [H Hl]. apply andb_true_iff in H. destruct H as [Hs Hj].
+      destruct (b_store (t_buf ts)); [|discriminate]. destruct (t_loc ts); [|discriminate].
+      destruct (t_job ts); [discriminate|]. eauto.
+    + apply andb_true_iff in H. destruct H as [H Hl]. apply andb_true_iff in H. destruct H as [Hs Hj].
+      destruct (b_store (t_buf ts)); [|discriminate]. destruct (t_loc ts); [discriminate|].
+      split; auto. split; [destruct (t_job ts); [discriminate|discriminate]|eauto].
+  - intros H. split.
+    + intros ts Hin. apply In_nth_error in Hin. destruct Hin as [t Ht].
+      pose proof (H t _ (tview_of _ _ _ Ht)) as Q. simpl in Q.
+      destruct (t_st ts); try tauto.
+      * destruct Q as [_ [q ->]]. reflexivity.
+      * destruct Q as [-> [Hj [a [b [c ->]]]]]. simpl. destruct (t_job ts); [reflexivity|congruence].
+      * destruct Q as [Hl [a [b [c ->]]]]. rewrite Hl. reflexivity.
+      * destruct Q as [-> [-> [q ->]]]. reflexivity.
+      * destruct Q as [-> [Hj [a [b [c ->]]]]]. simpl. destruct (t_job ts); [reflexivity|congruence].
+    + intros ts Hin. apply In_nth_error in Hin. destruct Hin as [t Ht].
+      pose proof (H t _ (tview_of _ _ _ Ht)) as Q. simpl in Q.
+      destruct (t_st ts); auto. destruct Q as [-> _]. reflexivity.
+Qed.
+
+Lemma PH_of_b x : agv_phase_b x = true -> agv_load_b x = true -> PH x.
+Proof.
+  intros H1 H2. apply PH_iff_agv_phase_b. apply andb_true_iff. split; auto.
+  unfold agv_load_b in H2. rewrite forallb_forall in *. intros ts Hin. specialize (H2 ts Hin).
+  destruct (t_st ts); auto.
+Qed.
+Lemma PH_agv_phase_b x : PH x -> agv_phase_b x = true.
+Proof. intros H. apply PH_iff_agv_phase_b in H. apply andb_true_iff in H. tauto. Qed.
+
+Section ReachPH.
+Variable sigma : oracle.
+Variable i : inst.
+
+Theorem apply_agv_phase_b x tr x' :
+  agv_phase_b x = true -> agv_load_b x = true -> apply_transition sigma i x tr = Ok x' -> agv_phase_b x' = true.
+Proof. intros H1 H2 Ha. apply PH_agv_phase_b. eapply apply_preserves_PH; eauto. apply PH_of_b; auto. Qed.
+
+Theorem reach_agv_phase_b fuel x0 joker0 ta r m :
+  agv_phase_b x0 = true -> agv_load_b x0 = true -> reach sigma i fuel x0 joker0 ta r m -> agv_phase_b (r_x r) = true.
+Proof.
+  intros H1 H2 Hr. apply PH_agv_phase_b.
+  eapply (reach_P sigma i PH); eauto using apply_preserves_PH, PH_set_now. apply PH_of_b; auto.
+Qed.
+
+Theorem reach_micro_agv_phase_b fuel x0 joker0 ta r m a r' m' lg :
+  agv_phase_b x0 = true -> agv_load_b x0 = true -> reach sigma i fuel x0 joker0 ta r m ->
+  mw_step sigma i fuel r m a = MOk r' m' lg -> forall tr y, In (tr, y) lg -> agv_phase_b y = true.
+Proof.
+  intros H1 H2 Hr Hs tr y Hin. apply PH_agv_phase_b.
+  eapply (reach_micro_P sigma i PH); eauto using apply_preserves_PH, PH_set_now. apply PH_of_b; auto.
+Qed.
+
+End ReachPH.
